@@ -61,6 +61,11 @@ func checkTime(tm time.Time) string {
 		shared := &zoo.Inner{A: 5, S: "after-dates"}
 		c.PT1, c.PT2, c.P1, c.P2, c.LP = &pt, &pt, shared, shared, []*time.Time{&pt, nil, &pt}
 	}
+	// a map of a named map type, then two lists of timestamps
+	mix := &zoo.TimeMix{Attrs: zoo.Stamps{"a": tm, "b": time.Unix(2, 0)}, Opened: []time.Time{tm}, Closed: []time.Time{time.UnixMilli(77), tm, tm}}
+	if stage, rerr, _ := roundTrip(mix); rerr != nil {
+		return fmt.Sprintf("named map type in front of two lists of timestamps: %s: %v", stage, rerr)
+	}
 	tmap, nm := hessian.ExtractTypeNameMap(c)
 	if pv, st := guard(func() { b, err = hessian.ToBytes(c, nm) }); pv != nil || err != nil {
 		return fmt.Sprintf("carrier encode: %v %v [%s]", err, pv, st)
